@@ -175,6 +175,16 @@ func SenderConfig(prop string, r *Rand, tier string) map[string]int64 {
 		c["fep"] = 1
 		c["w_pvodd"] = int64(r.Range(0, 8))
 		c["one_bridge"] = 0
+		// the L2 block at which the chain switched to the aggchain prover (no bridge activity up to it)
+		c["start_l2"] = 0
+		if r.Bool(30) {
+			c["start_l2"] = int64(r.Range(1, 4))
+		}
+		// optimistic mode may be switched on and off while the node runs
+		c["w_opt"] = 0
+		if r.Bool(25) {
+			c["w_opt"] = int64(r.Range(1, 3))
+		}
 	}
 	c["real_proofs"] = 0
 	if prop == "C09" || r.Bool(30) {
@@ -253,6 +263,9 @@ func (s *senderWorld) genL2Block(seed uint64) MBlock {
 		n = 1
 	default:
 		n = r.Range(2, 4)
+	}
+	if num <= uint64(s.cfg["start_l2"]) {
+		return b // before the start block of the aggchain prover: no bridge activity
 	}
 	dc := s.l2m.DepositCount()
 	ts := 1700000000 + num*2
@@ -354,7 +367,7 @@ func (s *senderWorld) startNode() *Violation {
 		s.pv.epoch = s.w.Epoch
 		pc := aggchainproofclient.NewAggchainProofClientWithService(&aggkitgrpc.ClientConfig{RequestTimeout: cfgtypes.NewDuration(time.Hour)}, s.pv)
 		node, err = aggsender.NewVerifWithFlow(ctx, logger, cfg, client, s.l2r, s.ep, func(storage aggsenderdb.AggSenderStorage) (aggsendertypes.AggsenderFlow, error) {
-			return flows.VerifNewAggchainProverFlow(ctx, cfg, logger, storage, l1c, s.l1s.F, s.l2r, rollupDataStub{}, pc, gerReaderStub{s}, 0, optModeStub{s}, optSignerStub{})
+			return flows.VerifNewAggchainProverFlow(ctx, cfg, logger, storage, l1c, s.l1s.F, s.l2r, rollupDataStub{}, pc, gerReaderStub{s}, uint64(s.cfg["start_l2"]), optModeStub{s}, optSignerStub{})
 		})
 	} else {
 		node, err = aggsender.New(ctx, logger, cfg, client, s.l1s.F, s.l2r, s.ep, l1c, nil, rollupDataStub{})
@@ -503,7 +516,7 @@ func (s *senderWorld) onSubmit(sub *Submission) {
 		}
 		expFrom := sub.ExpectedFrom
 		if expFrom == 0 {
-			expFrom = 1
+			expFrom = 1 + uint64(s.cfg["start_l2"])
 		}
 		if sub.From != expFrom {
 			s.fail("chain", "c02/wrong-first-block", "certificate at height %d starts at block %d; the block after the last settled block is %d", c.Height, sub.From, expFrom)
@@ -864,7 +877,7 @@ func runSender(prop string, tr *Trace, sc *Script, rec *Recorder, scratch string
 	gen := func(r *Rand) (Op, bool) {
 		labels := s.w.ParkedLabels()
 		wts := []int{int(cfg["w_l1mine"]), int(cfg["w_l1fin"]), int(cfg["w_l1sync"]), int(cfg["w_l2block"]), int(cfg["w_epoch"]), int(cfg["w_time"]),
-			int(cfg["w_rel"]), int(cfg["w_move"]), int(cfg["w_fault"]), int(cfg["w_lost"]), int(cfg["w_crash"]), int(cfg["w_losedb"]), int(cfg["w_savefault"]), int(cfg["w_pvodd"])}
+			int(cfg["w_rel"]), int(cfg["w_move"]), int(cfg["w_fault"]), int(cfg["w_lost"]), int(cfg["w_crash"]), int(cfg["w_losedb"]), int(cfg["w_savefault"]), int(cfg["w_pvodd"]), int(cfg["w_opt"])}
 		if len(labels) == 0 {
 			wts[6], wts[8], wts[9] = 0, 0, 0
 		}
@@ -915,6 +928,8 @@ func runSender(prop string, tr *Trace, sc *Script, rec *Recorder, scratch string
 			return Op{K: "crash", A: []int64{0}}, true
 		case 11:
 			return Op{K: "crash", A: []int64{1}}, true
+		case 14:
+			return Op{K: "opt"}, true
 		case 13:
 			// the prover answers with a shorter range / has no proof yet / times out
 			return Op{K: "rel", S: "pv", A: []int64{[]int64{replyStale, replyStale, replyNotFound, replyDeadline}[r.Intn(4)]}}, true
@@ -925,17 +940,8 @@ func runSender(prop string, tr *Trace, sc *Script, rec *Recorder, scratch string
 
 	apply := func(op Op) *Violation {
 		rec.Stats.Inc("steps")
-		statsMu.Lock()
-		pm := s.panicMsg
-		s.panicMsg = ""
-		statsMu.Unlock()
-		if pm != "" {
-			// the process exited at start-up (storage error while checking the initial status): the supervisor restarts it
-			rec.Stats.Inc("node_exited_at_startup")
-			rec.Event("node exited: %.120s", pm)
-			if v := s.crash(false); v != nil {
-				return v
-			}
+		if v := s.reviveIfExited(); v != nil {
+			return v
 		}
 		switch op.K {
 		case "l1mine":
@@ -1004,6 +1010,10 @@ func runSender(prop string, tr *Trace, sc *Script, rec *Recorder, scratch string
 				return v
 			}
 			rec.Step(fmt.Sprintf("X%d", op.Arg(0)))
+		case "opt":
+			s.optOn = !s.optOn
+			rec.Stats.Inc("optimistic_mode_toggled")
+			rec.Step("O")
 		case "savefault":
 			ArmFault(s.dbPath, &FaultPlan{FailAt: int(op.Arg(0)), OneShot: true})
 			s.faultArmed = true
@@ -1078,6 +1088,21 @@ func (s *senderWorld) crash(loseDB bool) *Violation {
 	return nil
 }
 
+// reviveIfExited restarts the node when its process exited at start-up (deliberate panic on a
+// storage error while checking the initial status): what a process supervisor does.
+func (s *senderWorld) reviveIfExited() *Violation {
+	statsMu.Lock()
+	pm := s.panicMsg
+	s.panicMsg = ""
+	statsMu.Unlock()
+	if pm == "" {
+		return nil
+	}
+	s.rec.Stats.Inc("node_exited_at_startup")
+	s.rec.Event("node exited: %.120s", pm)
+	return s.crash(false)
+}
+
 // goStart runs the node's Start loop. The node panics on purpose when its start-up checks hit a
 // storage error (a process exit in production): that is a crash of this incarnation, the next op
 // finds the node down and restarts it.
@@ -1143,6 +1168,9 @@ func (s *senderWorld) drain(syncL1 func(uint64) *Violation, addL2 func(uint64) *
 	ticks := 0
 	maxTicks := 12 + 4*len(s.l2m.Blocks)
 	for i := 0; i < maxTicks*40 && !done() && ticks < maxTicks; i++ {
+		if v := s.reviveIfExited(); v != nil {
+			return v
+		}
 		if ps := s.w.Parked(); len(ps) > 0 {
 			s.w.Release(ps[0], replyOK)
 		} else if s.ag.open() != nil {
@@ -1202,7 +1230,7 @@ func (s *senderWorld) drain(syncL1 func(uint64) *Violation, addL2 func(uint64) *
 		rec.Stats.Add("settled_certificates", int64(len(s.ag.Settled)))
 		return nil
 	}
-	next := uint64(1)
+	next := uint64(1) + uint64(s.cfg["start_l2"])
 	var gotExits, wantExits []common.Hash
 	var gotGI, wantGI []string
 	for h, c := range s.ag.Settled {
